@@ -618,17 +618,18 @@ def generate(rng, tier):
                   "something no provider has, alone or next to a resolvable entry in the same / the other guard "
                   "list (must raise InvalidDefinition at StateMachine())", len(mal)))
     # the textual layer on its own: random ASCII texts over the characters that matter
-    alphabet = "vvv!!^^== ()ax_1n"
+    alphabet = "vvv!!^^== ()ax_1n\u00ed\u00e9"      # (two non-ASCII letters: \\w and \\b are Unicode-aware)
     nt = 1500 if tier == "quick" else 40000
     texts = []
     for _ in range(nt):
         texts.append({"textual": True, "text": "".join(rng.choice(alphabet) for _ in range(rng.randint(0, 12))),
                       "provide": {}, "envs": []})
-    for t in ["v", "!v", "v!", "!=", "!!=", "a!=v", "v v", "vv", "_v", "v_", "v1", "1v", "(v)", "^v^", "a^!b v c", "not_v v v2"]:
+    for t in ["v", "!v", "v!", "!=", "!!=", "a!=v", "v v", "vv", "_v", "v_", "v1", "1v", "(v)", "^v^", "a^!b v c", "not_v v v2",
+              "v\u00eddeo", "\u00e9v\u00e9", "v \u00ed", "\u00edv", "v\u00ed v \u00e9v", "!\u00e9 ^ v\u00e3o_livre == 0"]:
         texts.append({"textual": True, "text": t, "provide": {}, "envs": []})
     scs += texts
-    parts.append(("textual layer: replace_operators on random ASCII texts over v ! ^ = space ( ) letters digits "
-                  "underscore (length 0-12) and hand-picked corner cases, compared character by character with the "
+    parts.append(("textual layer: replace_operators on random texts over v ! ^ = space ( ) letters digits "
+                  "underscore and two non-ASCII letters (length 0-12) and hand-picked corner cases, compared character by character with the "
                   "model Impl/Replace.v", len(texts)))
     return scs, parts
 
